@@ -463,6 +463,8 @@ func (x *X) zero(s *State, t types.Type, wrap wrapFn) Val {
 			return Sc{T: cst("Bool", "false"), Sort: wrap("Bool")}
 		case "Str":
 			return Sc{T: cst("Str", "emptyStr"), Sort: wrap("Str")}
+		case "Ref":
+			return Sc{T: cst("Ref", "nilref"), Sort: wrap("Ref")}
 		}
 	}
 	if isErrorType(t) {
@@ -1265,8 +1267,8 @@ func (x *X) step(s *State, in ssa.Instruction) bool {
 			at := i.X.Type().Underlying().(*types.Pointer).Elem().Underlying().(*types.Array)
 			opaque, ifaces := false, IfaceArr{map[int]Iface{}}
 			_, elemIsIface := at.Elem().Underlying().(*types.Interface)
-			if namedOf(at.Elem()) == tyAuction {
-				elemIsIface = false
+			if namedOf(at.Elem()) == tyAuction || scalarSort(at.Elem()) != "" {
+				elemIsIface = false // auctions are records, listener references are scalars
 			}
 			for k := 0; k < n; k++ {
 				switch e := arr.F[fmt.Sprint(k)].(type) {
@@ -1625,6 +1627,10 @@ func (x *X) eqGo(s *State, l, r Val, t types.Type) string {
 	case Sc:
 		if b, ok := r.(Sc); ok {
 			return sEq(a.T, b.T)
+		}
+		if b, ok := r.(Iface); ok && a.Sort == "Ref" {
+			// a listener reference against an interface value of known dynamic type: equal only if both are nil
+			return sAnd(sEq(a.T, "nilref"), x.ifaceNil(b))
 		}
 	case St:
 		if b, ok := r.(St); ok {
@@ -2148,7 +2154,6 @@ func (x *X) emitCover(s *State, c *Clause, name string, res []Val, block int) {
 	o.Decls = x.decls[:len(x.decls):len(x.decls)]
 	x.obligs = append(x.obligs, o)
 }
-
 
 // emitPathCover: "the quantifier-free part of the path condition is satisfiable here"; judged per name over all paths.
 func (x *X) emitPathCover(s *State, name string, block int) {
